@@ -54,10 +54,21 @@ type propCfg struct {
 	// ExtraRun are additional test-name regexps run once (un-sharded) before
 	// the sharded run: scripted regressions, exhaustive enumerations.
 	ExtraRun string
+	// ExtraPkgs are further test packages whose tests are part of this
+	// property's check (function-level models that complement a simulation
+	// check, or the single-node log driver run under the property whose
+	// clause it decides): built like the main binary, run once un-sharded.
+	ExtraPkgs []extraPkg
 	// Fuzz lists native fuzz targets run in the thorough tier (coverage-guided,
 	// cannot be pinned by a seed; a crasher is the replay unit).
 	Fuzz     []string
 	FuzzTime string
+}
+
+type extraPkg struct {
+	Pkg, Run string
+	Quick    int // rapid.checks
+	Thorough int
 }
 
 var simAssumptions = []string{
@@ -80,6 +91,16 @@ func init() {
 		pc.ExtraRun = "^TestReplay_" + id + "_" // scripted regressions (DESIGN Appendix B)
 		if id == "C05" {
 			pc.Level = "fault_enumeration" // random crash search + complete single-crash sweep per base schedule
+		}
+		switch id {
+		case "C03", "C05", "C08":
+			// the single async RawNode against scripted leaders and a
+			// reference follower (harness/logm L3) decides clauses of these
+			// properties too: log matching with the leader (C03), acks and
+			// the apply stream only over durable state (C05, C08)
+			pc.ExtraPkgs = []extraPkg{{Pkg: "./logm", Run: "^TestC18Follower$", Quick: 4000, Thorough: 150000}}
+		case "C16":
+			pc.ExtraPkgs = []extraPkg{{Pkg: "./pure", Run: "^TestC16Flow$", Quick: 15000, Thorough: 400000}}
 		}
 		props[id] = pc
 	}
@@ -225,6 +246,7 @@ func main() {
 	// 1. build the test binary from the current /repo tree
 	bin := filepath.Join(outDir, "check.test")
 	buildArgs := []string{"test", "-c", "-tags", "verif", "-o", bin}
+	var modArgs []string
 	if altRepo != "" {
 		gm, err := os.ReadFile(filepath.Join(harness, "go.mod"))
 		if err != nil {
@@ -237,6 +259,7 @@ func main() {
 			_ = os.WriteFile(filepath.Join(outDir, "alt.sum"), gs, 0o644)
 		}
 		buildArgs = append(buildArgs, "-modfile="+modfile)
+		modArgs = []string{"-modfile=" + modfile}
 	}
 	buildArgs = append(buildArgs, cfg.Pkg)
 	build := exec.Command(goBin, buildArgs...)
@@ -248,9 +271,25 @@ func main() {
 
 	if replay != "" {
 		abs, _ := filepath.Abs(replay)
-		cmd := exec.Command(bin, "-test.run", "^"+cfg.Test+"$", "-test.v", "-rapid.failfile="+abs, "-rapid.nofailfile")
+		runRe := "^" + cfg.Test + "$"
+		if m := regexp.MustCompile(`/extra(\d+)/`).FindStringSubmatch(abs); m != nil {
+			// a failure of one of the property's extra packages
+			if k, _ := strconv.Atoi(m[1]); k < len(cfg.ExtraPkgs) {
+				ep := cfg.ExtraPkgs[k]
+				bin = filepath.Join(outDir, fmt.Sprintf("extra%d.replay.test", k))
+				args := append([]string{"test", "-c", "-tags", "verif", "-o", bin}, modArgs...)
+				b := exec.Command(goBin, append(args, ep.Pkg)...)
+				b.Dir = harness
+				b.Env = goEnv()
+				if out, err := b.CombinedOutput(); err != nil {
+					infra("building %s failed: %v\n%s", ep.Pkg, err, out)
+				}
+				runRe = ep.Run
+			}
+		}
+		cmd := exec.Command(bin, "-test.run", runRe, "-test.v", "-rapid.failfile="+abs, "-rapid.nofailfile")
 		cmd.Dir = outDir
-		cmd.Env = append(goEnv(), "VERIF_TIER="+tier, "VERIF_OUT_DIR="+outDir, "VERIF_SHARD=replay")
+		cmd.Env = append(goEnv(), "VERIF_TIER="+tier, "VERIF_OUT_DIR="+outDir, "VERIF_SHARD=replay", "VERIF_REPORT_AS="+prop)
 		out, _ := cmd.CombinedOutput()
 		fmt.Print(filterDraws(string(out)))
 		if m := reViolation.FindStringSubmatch(string(out)); m != nil {
@@ -333,6 +372,56 @@ func main() {
 			} else {
 				fmt.Print(tail(extraOut, 60))
 				infra("extra tests %s failed without a violation line", cfg.ExtraRun)
+			}
+		}
+	}
+
+	// 2b. tests of further packages that belong to this property's check
+	for k, ep := range cfg.ExtraPkgs {
+		if replay != "" {
+			break
+		}
+		ebin := filepath.Join(outDir, fmt.Sprintf("extra%d.test", k))
+		args := append([]string{"test", "-c", "-tags", "verif", "-o", ebin}, modArgs...)
+		args = append(args, ep.Pkg)
+		b := exec.Command(goBin, args...)
+		b.Dir = harness
+		b.Env = goEnv()
+		if out, err := b.CombinedOutput(); err != nil {
+			infra("building %s failed: %v\n%s", ep.Pkg, err, out)
+		}
+		checks := ep.Quick
+		if tier == "thorough" {
+			checks = ep.Thorough
+		}
+		ed := filepath.Join(outDir, fmt.Sprintf("extra%d", k))
+		_ = os.MkdirAll(ed, 0o755)
+		sp := filepath.Join(ed, "stats.json")
+		cmd := exec.Command(ebin, "-test.run", ep.Run, "-test.count=1", "-test.timeout="+timeout, "-test.v",
+			"-rapid.checks="+strconv.Itoa(checks), "-rapid.seed="+strconv.Itoa(1+seed*1000+900+k), "-rapid.shrinktime=20s")
+		cmd.Dir = ed
+		cmd.Env = append(goEnv(), "VERIF_TIER="+tier, "VERIF_OUT_DIR="+outDir, "VERIF_SHARD=extra"+strconv.Itoa(k), "VERIF_STATS_OUT="+sp,
+			"VERIF_REPORT_AS="+prop, "VERIF_SEED="+strconv.Itoa(seed))
+		out, err := cmd.CombinedOutput()
+		_ = os.WriteFile(filepath.Join(ed, "output.log"), []byte(filterDraws(string(out))), 0o644)
+		if b, rerr := os.ReadFile(sp); rerr == nil {
+			var r shardReport
+			if json.Unmarshal(b, &r) == nil {
+				extraReports = append(extraReports, &r)
+			}
+		}
+		if err != nil {
+			if m := reViolation.FindStringSubmatch(string(out)); m != nil {
+				violations++
+				rp := filepath.Join(ed, "output.log")
+				if fs, _ := filepath.Glob(filepath.Join(ed, "testdata", "rapid", "*", "*.fail")); len(fs) > 0 {
+					rp = fs[0]
+				}
+				violLines = append(violLines, fmt.Sprintf("VIOLATION property=%s replay=%s", prop, rp))
+				fmt.Printf("%s %s: %s\n", ep.Pkg, ep.Run, m[0])
+			} else {
+				fmt.Print(tail(filterDraws(string(out)), 40))
+				infra("tests %s of %s failed without a violation line", ep.Run, ep.Pkg)
 			}
 		}
 	}
